@@ -45,7 +45,11 @@ class P:
         atabs = [{"a": "cat <<E\n`cat <<F\nF\n`\nE\n"}, {"a": "(( $(cat <<E\nx\nE\n) +"}, {"a": "echo $(( `cat <<E\nx\nE\n` +"}, {"a": "cat <<E\n$(( $(cat <<F\nx\nF\n) +"},
                  {"a": "{ b\nc; }"}, {"a": "for i in 1; do b\nc\ndone"}, {"a": "if x\nthen y\nfi"}, {"a": "case x in\ny) z\nw;;\nesac"}, {"a": "echo $(cat <<E\nx\nE\n)"},
                  {"a": "echo 'p\nq'"}, {"a": "cat <<E\nbody\nE\necho after"}, {"a": "echo \"$(b\nc)\" $(( 1 +\n2 ))"}, {"a": "b ", "b": "cat <<-E\n\tx\n\tE\n"},
-                 {"a": "echo $(cat <<E; cat <<F\n1\nE\n2\nF\n) `cat <<G\ng\nG\n`"}, {"a": "x=$(cat <<E\n$(cat <<F\nf\nF\n)\nE\n) y"}]
+                 {"a": "echo $(cat <<E; cat <<F\n1\nE\n2\nF\n) `cat <<G\ng\nG\n`"},
+                 # a word part that holds a newline followed by another part (inside alias text a part "ends" on a later line than the
+                 # next one begins), here-document bodies of several lines (not merged into one literal there)
+                 {"a": "echo 'a\nb'c "}, {"a": "echo \"a\nb\"$c "}, {"a": "cat <<E\nfoo\nbar\nE\n"}, {"a": "echo ${x:-'a\nb'}c"}, {"a": "x='1\n2'$y z"},
+                 {"a": "echo \"a\nb\"'c\nd'e$(f\ng)h"}, {"a": "cat <<E\n$x\n$y z\nE\n"}, {"a": "echo a\\\nb\\\n$c"}, {"a": "x=$(cat <<E\n$(cat <<F\nf\nF\n)\nE\n) y"}]
         asrcs = ["a", "a\n", "a\n1 ))\n", "a\n1 ))\nE\n", "{ a; }", "( a )", "a | a", "if a; then a; fi", "while a; do a; done", "a\n1 ))", "x=1 a", "a z", "a; a"]
         down += ["%s\t%s" % (hx(s_), al(t_)) for t_ in atabs for s_ in asrcs]
         alpha = ["a", "1", "x", "*", "?", "[", "]", "!", "^", "-", "\\", ".", "/", "(", ")", "+", "=", " ", "\n", "é", "\xff", "$", "~", ":", "<", ">", "&", "|", "%", "0x", "08", "<<", ">>", "64", "-1"]
